@@ -108,7 +108,7 @@ AUTH = ["missing", "wrong", "malformed", "duplicated", "nonutf8", "correct", "wr
 XAUTH = ["missing", "wrong-names", "bad-base64", "wrong-length", "duplicated", "other-upload", "correct", "empty-value", "extra-secret"]
 # the second line of defence (right swissnum, wrong per-object secret) is as important as the first: sample it often
 AUTH_W = AUTH + ["correct"] * 4
-XAUTH_W = XAUTH + ["other-upload"] * 3 + ["correct"]
+XAUTH_W = XAUTH + ["other-upload"] * 3 + ["correct"] + ["sibling-upload"] * 2
 
 
 def gen_auth(seed, tier):
@@ -246,6 +246,21 @@ def exec_auth(case):
                     xa("write-enabler", secret_of("we", 12345))
                     xa("lease-renew-secret", good_secret("renew", 2))
                     xa("lease-cancel-secret", good_secret("cancel", 2))
+            elif xauth == "sibling-upload":
+                # a second uploader with its own, perfectly valid upload of ANOTHER share number of the same storage index
+                # presents its own secret against the victim's share
+                sib_secret = secret_of("upload", 424242)
+                if auth == "correct" and "/immutable/" in path:
+                    h2 = Headers()
+                    h2.addRawHeader("Authorization", good_auth)
+                    for nm_, val_ in (("upload-secret", sib_secret), ("lease-renew-secret", good_secret("renew", 9)), ("lease-cancel-secret", good_secret("cancel", 9))):
+                        h2.addRawHeader("X-Tahoe-Authorization", nm_.encode() + b" " + b64encode(val_))
+                    h2.addRawHeader("Content-Type", "application/cbor")
+                    h2.addRawHeader("Accept", "application/cbor")
+                    rig.raw("POST", "/storage/v1/immutable/" + si_b2a(target_si).decode("ascii"), h2,
+                            cbor2.dumps({"share-numbers": {sh + 5}, "allocated-size": 50}))
+                    probe("sibling-upload-started")
+                xa("upload-secret", sib_secret)
             elif xauth == "empty-value":
                 hdrs.addRawHeader("X-Tahoe-Authorization", b"upload-secret ")
             elif xauth == "extra-secret":
@@ -305,7 +320,14 @@ def exec_auth(case):
                 required_some = method in ("PATCH", "POST", "PUT") and not path.endswith("corrupt")
                 srv_ups = rig_uploads_before.get(target_si)
                 live_secret = srv_ups.get(sh) if srv_ups else None
-                if xauth == "other-upload" and live_secret is not None and live_secret != other_secret and (method == "PATCH" or path.endswith("/abort")):
+                if xauth == "sibling-upload" and live_secret is not None and live_secret != sib_secret and (method == "PATCH" or path.endswith("/abort")):
+                    probe("attack-sibling-upload-secret-on-live-upload")
+                    if after != before:
+                        bad("foreign-secret-touched-upload", "%s %s with the secret of a sibling upload (another share of the same storage index) changed "
+                            "an in-progress upload (response %r)" % (method, path, code))
+                    if code not in (401, 400):
+                        bad("foreign-secret-not-refused", "%s %s with the secret of a sibling upload answered %r" % (method, path, code))
+                elif xauth == "other-upload" and live_secret is not None and live_secret != other_secret and (method == "PATCH" or path.endswith("/abort")):
                     probe("attack-other-upload-secret-on-live-upload")
                     if after != before:
                         bad("foreign-secret-touched-upload", "%s %s with another upload's secret changed an in-progress upload (response %r)" % (method, path, code))
@@ -328,6 +350,15 @@ def exec_auth(case):
                         if code not in (400, 401, 404, 405, 416):
                             bad("bad-secrets-not-rejected", "%s %s with X-Tahoe-Authorization=%s answered %r" % (method, path, xauth, code),
                                 sig="C30.bad-secrets-not-rejected." + xauth)
+                elif xauth in ("wrong-names", "bad-base64", "wrong-length", "empty-value", "extra-secret") and not required_some:
+                    # an endpoint that takes no secrets: a malformed or unexpected secret header is still a malformed request
+                    probe("attack-bad-secrets-on-no-secret-endpoint")
+                    if after != before:
+                        bad("bad-secrets-changed-state", "%s %s (takes no secrets) with X-Tahoe-Authorization=%s changed server state (response %r)" % (method, path, xauth, code),
+                            sig="C30.bad-secrets-changed-state.no-secret-endpoint")
+                    if code not in (400, 401):
+                        bad("bad-secrets-not-rejected", "%s %s (takes no secrets) with X-Tahoe-Authorization=%s answered %r" % (method, path, xauth, code),
+                            sig="C30.bad-secrets-not-rejected.no-secret-endpoint." + xauth)
             if after != before:
                 # the attacker (who knows swissnum and correct secrets in this branch) legitimately changed something: resync our view
                 for key, u in list(uploads.items()):
